@@ -46,3 +46,40 @@ Fixpoint failing_from (i : Z) (l : list acase) : list (Z * Z) :=
   end.
 
 Definition failing (l : list acase) : list (Z * Z) := failing_from 0%Z l.
+
+(* ---- float front end (AngleFloat) *)
+From Coq Require Import Floats.PrimFloat.
+From NQ Require Import Num.AngleFloat.
+
+(* one recorded call: the doubles (angle, tol) and the values of `rest` and
+   `tol_rest` observed inside the implementation when the loop is entered *)
+Record fcase := mkF { f_angle : float; f_tol : float; f_rest : float; f_thr : float }.
+
+(* bit 1: PrimFloat front end differs from the observed values
+   bit 2: rational front end (Angle.front) differs from the PrimFloat one (not counted when the rational model declines: subnormal range)
+   bit 4: the front-end allowance 2^-49 does not hold for this input (expected beyond two turns: recorded finding)
+   bit 8: rest outside [0, 2) or thr below 2^-248 *)
+Definition check_fcase (c : fcase) : Z :=
+  match front_f (f_angle c) (f_tol c) with
+  | None => 1%Z
+  | Some (r, t) =>
+      let qr := f2q r in let qt := f2q t in
+      let b1 := if Qeq_bool qr (f2q (f_rest c)) && Qeq_bool qt (f2q (f_thr c)) then 0%Z else 1%Z in
+      let b2 := match front (f2q (f_angle c)) (f2q (f_tol c)) with
+                | None => 0%Z
+                | Some (r', t') => if Qeq_bool r' qr && Qeq_bool t' qt then 0%Z else 2%Z
+                end in
+      let b4 := match fe_turns (f2q (f_angle c)) (f2q (f_tol c)) qr qt with Some _ => 0%Z | None => 4%Z end in
+      let b8 := if Qle_bool 0 qr && negb (Qle_bool 2 qr) && Qle_bool (pow2 (-248)) qt then 0%Z else 8%Z in
+      (b1 + b2 + b4 + b8)%Z
+  end.
+
+Fixpoint ffailing_from (i : Z) (l : list fcase) : list (Z * Z) :=
+  match l with
+  | [] => []
+  | c :: l' =>
+      let r := check_fcase c in
+      if Z.eqb r 0 then ffailing_from (i + 1)%Z l' else (i, r) :: ffailing_from (i + 1)%Z l'
+  end.
+
+Definition ffailing (l : list fcase) : list (Z * Z) := ffailing_from 0%Z l.
